@@ -98,7 +98,7 @@ def main():
     print("lines %d/%d  branches %d/%d" % (tot[1], tot[0], tot[3], tot[2]))
     for k, v in report.items():
         print("%-20s lines %4d/%4d branches %4d/%4d  missed: %d" % (k, v["lines_hit"], v["lines"], v["branches_hit"], v["branches"], len(v["never_executed"])))
-    shutil.rmtree(WORK + "/b", ignore_errors=True)
+    shutil.rmtree(WORK, ignore_errors=True)
 
 
 if __name__ == "__main__":
